@@ -84,3 +84,50 @@ class Sublayout(PipelineBase):
                     first=g['ilinks'][0][0]; last=g['ilinks'][-1][0]
                     rec['sample']['expect_summary']={'materials':conc_art(first.materials,m),'products':conc_art(last.products,m),'name':'final','command':last.command}
         return rec
+
+class SublayoutTwoFunctionaries(PipelineBase):
+    """a delegated step with two authorized functionaries who file the *same* sub-layout: each copy must be verified against
+    its own dedicated sub-directory; a copy whose sub-directory does not satisfy it never counts"""
+    name='C15.sublayout_two_functionaries'
+    outer_name='b.r'
+    def __init__(self,**kw):
+        PipelineBase.__init__(self,**kw)
+        self.bounds={'outer_layout':'1 step delegated to sub-layouts, threshold 1 or 2, functionaries F0 and F1 both authorized; each files a sub-layout with identical content (1 inner step, inner functionary G), signed by its filer with free validity',
+                     'inner_links':'sub-directory of F0 and sub-directory of F1: inner link absent / present with free signature validity; materials/products of the two inner links equal or different (free digest bytes)','hash_map_iteration':'every permutation'}
+        self.witnesses=['ok_both','err_second_dir_unsatisfied']
+    def mk_args(self,run):
+        F0,F1,G,OWN=0,1,2,3
+        OUT=self.outer_name
+        thr=[1,2][run.pick(2,'thr')]
+        inner=LayoutD([G],[StepD('i0',1,[G])])
+        dirs={():[]}; info=[]
+        for f in (F0,F1):
+            sub=((OUT,f),); dirs[sub]=[]
+            ssig=SigD(f,z3.BitVec('smb_%d'%f,8),z3.Bool('sin_%d'%f),z3.Bool('sov_%d'%f)); run.add(z3.ULE(tbv(ssig.made_by),3))
+            dirs[()].append(FileD(OUT,f,BlockD('layout',inner,[ssig])))
+            present=bool(run.pick(2,'ilink_%d'%f))
+            ld=LinkD('i0',{'m':[z3.BitVec('im_%d'%f,8)]},{'p':[z3.BitVec('ip_%d'%f,8)]},return_value=0,command=['c'])
+            lsd=SigD(G,z3.BitVec('lmb_%d'%f,8),z3.Bool('lin_%d'%f),z3.Bool('lov_%d'%f)); run.add(z3.ULE(tbv(lsd.made_by),3))
+            if present: dirs[sub].append(FileD('i0',G,BlockD('link',ld,[lsd])))
+            info.append({'f':f,'ssig':ssig,'present':present,'ld':ld,'lsd':lsd})
+        outer=LayoutD([F0,F1],[StepD(OUT,thr,[F0,F1])])
+        lb=BlockD('layout',outer,[SigD(OWN,OWN)]); caller=[(OWN,OWN)]
+        args=self.install(run,lb,caller,dirs)
+        return args,{'lb':lb,'caller':caller,'dirs':dirs,'thr':thr,'info':info}
+    def check(self,run,out,g):
+        oc=outcome_of(out); rec=self.new_rec(oc)
+        mk=lambda m: conc_scenario(m,g['lb'],g['caller'],g['dirs'],1700000000)
+        if oc=='panic':
+            r,m=run.check_sat(z3.BoolVal(True))
+            rec['viol']={'kind':'panic','known_key':None,'scenario':mk(m),'predicted':'panic','what':'in_toto_verify panics: '+str(out[1])}; return rec
+        sat=[z3.And(i['ssig'].valid_for(i['f']),z3.BoolVal(i['present']),i['lsd'].valid_for(2)) for i in g['info']]
+        nsat=z3.If(sat[0],1,0)+z3.If(sat[1],1,0)
+        if oc=='ok':
+            if self.classify(run,rec,nsat<g['thr'],{},mk,'ok','a delegated step with threshold %d is accepted although fewer sub-layout copies are validly signed by their filer and satisfied from their own dedicated sub-directory'%g['thr'],'sublayout_copy_not_verified_in_its_own_directory'): return rec
+            self.wit(run,rec,'ok_both',z3.And(sat[0],sat[1]))
+        elif oc.startswith('err'):
+            if g['thr']==2: self.wit(run,rec,'err_second_dir_unsatisfied',z3.And(sat[0],z3.Not(sat[1])))
+        if is_sample(run,self.seed,self.rate):
+            r,m=run.check_sat(z3.BoolVal(True))
+            if r==z3.sat: rec['sample']={'scenario':mk(m),'expect':'ok' if oc=='ok' else 'err'}
+        return rec
